@@ -363,7 +363,9 @@ class JSONGrammar(BaseGrammar):
     @property
     def schema(self) -> Schema:
         """The dictionary representation of the schema."""
-        if not self.__schema:
+        if not self.__schema or self._required_names != set(
+            self.__schema.get("required", ())
+        ):
             with self.__sync_required_names():
                 self.__schema = self.__schema_builder.to_schema()
         return self.__schema
